@@ -1,2 +1,41 @@
-(** placeholder while the proofs are written *)
-From Qv Require Import Common.Bytes Model.BdatTx Spec.BdatSpec.
+(** C19 — BDAT chunks are framed exactly and chunk boundaries never alter the message.
+    Only statements here; proofs live in Proofs/Bdat*.v. *)
+From Qv Require Import Common.Bytes Gen.GenBdat Model.BdatTx Spec.BdatSpec Proofs.BdatDigits Proofs.BdatTxProofs.
+
+(** Sending side (qremote/qrbdat.c:send_bdat with fixes/C19-bdat-final-crlf.diff).
+    For every message, every chunk size from 16 (the minimum that fits
+    "BDAT n LAST CRLF" and one octet) and every behaviour of the server
+    ([nok] = how many intermediate chunks it accepts; [None] = all):
+    the model does not crash (no access outside chunkbuf or msgdata) and terminates,
+    and what it hands to the network layer satisfies [tx_ok] (Spec/BdatSpec.v):
+    every write is "BDAT n[ LAST] CRLF" followed by exactly n octets, command and
+    data together never exceed the chunk size, LAST is on the final command and
+    only there (and only when the transaction was not aborted), a non-empty
+    message produces at least one command, and the concatenated chunk data is
+    the message with every bare LF made CRLF, a bare CR kept or completed to
+    CRLF (for an aborted transaction: of a prefix of the message). *)
+Theorem C19_tx : forall cs msg nok, 16 <= cs ->
+  exists ws e wn,
+    send_bdat cs msg nok = Ok (ws, e, wn)
+    /\ tx_ok cs msg (is_done e) ws
+    /\ (nok = None -> e = TxDone).
+Proof. exact send_bdat_ok. Qed.
+Print Assumptions C19_tx.
+
+(** For a message without bare CR (every valid message) the normalisation is a
+    function: the chunk data concatenates to exactly [lf2crlf false msg]. *)
+Theorem C19_tx_exact : forall msg o, tx_norm msg o -> no_bare_cr msg -> o = lf2crlf false msg.
+Proof. exact tx_norm_exact. Qed.
+Print Assumptions C19_tx_exact.
+
+(** the hypotheses are satisfiable by a non-trivial input: four chunks, the
+    first boundary falls between a CR and its LF *)
+Example C19_nonvacuous :
+  let msg := [97; 13; 10; 98; 10; 10; 99; 13]%N in
+  exists ws wn, send_bdat 17 msg None = Ok (ws, TxDone, wn) /\ length ws = 4
+    /\ tx_norm msg [97; 13; 10; 98; 13; 10; 13; 10; 99; 13; 10]%N.
+Proof.
+  eexists _, _. split; [vm_compute; reflexivity|]. split; [reflexivity|].
+  repeat (first [apply tn_nil | apply tn_crlf | apply tn_lf | apply tn_cr_compl; [exact I|]
+                | apply tn_other; [discriminate|discriminate|]]).
+Qed.
